@@ -40,6 +40,26 @@ def _lit(node: ast.AST) -> Any:
     raise AnalysisError(f"non-literal {type(node).__name__} in the generated parser's tables (line {getattr(node, 'lineno', '?')})")
 
 
+def _decode_blob(blob: bytes, name: str) -> Any:
+    """The compressed table form of the standalone generator, decoded as data: base64 -> zlib -> a pickle that may
+    only build builtin containers and scalars (any class reference is refused, nothing of the repository is run)."""
+    import base64
+    import io
+    import pickle
+    import zlib
+
+    class _DataOnly(pickle.Unpickler):
+        def find_class(self, module: str, qualname: str) -> Any:
+            raise AnalysisError(f"the pickled {name} table references {module}.{qualname}: not plain data")
+    try:
+        raw = zlib.decompress(base64.b64decode(blob, validate=True))
+        return _DataOnly(io.BytesIO(raw)).load()
+    except AnalysisError:
+        raise
+    except Exception as e:  # noqa: BLE001
+        raise AnalysisError(f"cannot decode the compressed {name} table of the generated parser: {type(e).__name__}: {e}")
+
+
 @dataclass
 class Shipped:
     data: Dict[str, Any]
@@ -75,9 +95,22 @@ def extract_shipped(path: Optional[str] = None) -> Shipped:
                         counts[x.id] = counts.get(x.id, 0) + 1
                     if isinstance(x, ast.Subscript) and isinstance(x.value, ast.Name) and x.value.id in ("DATA", "MEMO"):
                         counts[x.value.id] = counts.get(x.value.id, 0) + 1
+    blobs: Dict[str, bytes] = {}
     for n in tree.body:
         if isinstance(n, ast.Assign) and len(n.targets) == 1 and isinstance(n.targets[0], ast.Name):
             nm = n.targets[0].id
+            if nm in ("DATA", "MEMO") and isinstance(n.value, ast.Constant) and isinstance(n.value.value, bytes):
+                # `lark.tools.standalone -c`: NAME = b"<base64>" ; NAME = pickle.loads(zlib.decompress(base64.b64decode(NAME)))
+                blobs[nm] = n.value.value
+                continue
+            if nm in ("DATA", "MEMO") and nm in blobs and ast.unparse(n.value).replace(" ", "") == f"pickle.loads(zlib.decompress(base64.b64decode({nm})))":
+                val = _decode_blob(blobs.pop(nm), nm)
+                counts[nm] = counts.get(nm, 0) - 1     # the two statements are one definition
+                if nm == "DATA":
+                    data = val
+                else:
+                    memo = val
+                continue
             if nm == "DATA":
                 data = _lit(n.value)
             elif nm == "MEMO":
